@@ -39,7 +39,7 @@ SPEC = dict(
          'distinct_nontrivial = number of distinct canonical (structure + stored factors) trees on which the walker ran after an operation (deep configurations: distinct touched regions - node identities, links and factors along the checked paths).',
     exhaustive={'quick': 'all (shape, operation) pairs for reachable AVL shapes with <= 15 nodes',
                 'thorough': 'all (shape, operation) pairs for reachable AVL shapes with <= 20 nodes'},
-    require=['search-with-a-null-context-pointer', 'walker-runs', 'bfs-insert-transitions', 'bfs-remove-transitions', 'dup-insert-returns-resident', 'dup-insert-of-resident-object',
+    require=['search-resident-probe-stored-under-another-key', 'search-with-a-null-context-pointer', 'walker-runs', 'bfs-insert-transitions', 'bfs-remove-transitions', 'dup-insert-returns-resident', 'dup-insert-of-resident-object',
              'insert-returns-null-for-new-key', 'search-agrees-with-model',
              # configurations deep*: a tree above 32 levels was built and judged; inserts / removals 33 or more levels down whose retrace ran all the way to the root were judged
              'deep-build-judged', 'deep-tree-height-above-32', 'deep-full-walks', 'deep-insert-judged', 'deep-remove-judged', 'deep-dup-insert-judged', 'deep-search-judged',
